@@ -75,10 +75,43 @@ func OpInRange(x Value, orgOp tok.Token, org Value, endOp tok.Token, end Value) 
 	return True
 }
 
+// addOk returns x + y and whether the result is exact (did not overflow)
+func addOk(x, y int) (int, bool) {
+	z := x + y
+	// overflow iff x and y have the same sign and z has the other sign
+	return z, (x^z)&(y^z) >= 0
+}
+
+// subOk returns x - y and whether the result is exact (did not overflow)
+func subOk(x, y int) (int, bool) {
+	z := x - y
+	// overflow iff x and y have different signs and z does not have the sign of x
+	return z, (x^y)&(x^z) >= 0
+}
+
+// mulOk returns x * y and whether the result is exact (did not overflow)
+func mulOk(x, y int) (int, bool) {
+	if x == 0 || y == 0 {
+		return 0, true
+	}
+	z := x * y
+	// dividing back both ways also catches MinInt * -1
+	return z, z/y == x && z/x == y
+}
+
+// divOk returns x / y (y must not be 0) and whether the result is exact.
+func divOk(x, y int) (int, bool) {
+	z := x / y
+	// the only overflow is MinInt / -1: a negative quotient of two negatives
+	return z, !(x < 0 && y < 0 && z < 0)
+}
+
 func OpAdd(x Value, y Value) Value {
 	if xi, xok := SuIntToInt(x); xok {
 		if yi, yok := SuIntToInt(y); yok {
-			return IntVal(xi + yi)
+			if z, ok := addOk(xi, yi); ok {
+				return IntVal(z)
+			}
 		}
 	}
 	return SuDnum{Dnum: dnum.Add(ToDnum(x), ToDnum(y))}
@@ -86,7 +119,9 @@ func OpAdd(x Value, y Value) Value {
 
 func OpAdd1(x Value) Value {
 	if n, ok := SuIntToInt(x); ok {
-		return IntVal(n + 1)
+		if z, ok := addOk(n, 1); ok {
+			return IntVal(z)
+		}
 	}
 	return SuDnum{Dnum: dnum.Add(ToDnum(x), dnum.One)}
 }
@@ -94,7 +129,9 @@ func OpAdd1(x Value) Value {
 func OpSub(x Value, y Value) Value {
 	if xi, xok := SuIntToInt(x); xok {
 		if yi, yok := SuIntToInt(y); yok {
-			return IntVal(xi - yi)
+			if z, ok := subOk(xi, yi); ok {
+				return IntVal(z)
+			}
 		}
 	}
 	return SuDnum{Dnum: dnum.Sub(ToDnum(x), ToDnum(y))}
@@ -103,7 +140,9 @@ func OpSub(x Value, y Value) Value {
 func OpMul(x Value, y Value) Value {
 	if xi, xok := SuIntToInt(x); xok {
 		if yi, yok := SuIntToInt(y); yok {
-			return IntVal(xi * yi)
+			if z, ok := mulOk(xi, yi); ok {
+				return IntVal(z)
+			}
 		}
 	}
 	return SuDnum{Dnum: dnum.Mul(ToDnum(x), ToDnum(y))}
@@ -113,7 +152,9 @@ func OpDiv(x Value, y Value) Value {
 	if yi, yok := SuIntToInt(y); yok && yi != 0 {
 		if xi, xok := SuIntToInt(x); xok {
 			if xi%yi == 0 {
-				return IntVal(xi / yi)
+				if z, ok := divOk(xi, yi); ok {
+					return IntVal(z)
+				}
 			}
 		}
 	}
@@ -183,7 +224,9 @@ func OpUnaryPlus(x Value) Value {
 
 func OpUnaryMinus(x Value) Value {
 	if xi, ok := SuIntToInt(x); ok {
-		return IntVal(-xi)
+		if z, ok := subOk(0, xi); ok {
+			return IntVal(z)
+		}
 	}
 	if x == EmptyStr || x == False {
 		return Zero
